@@ -331,6 +331,10 @@ def check(prop, tier, seed, workers=None, runs=None):
     for sig in sorted(by_sig)[:8]:
         u = by_sig[sig]
         events, ok = kernel.minimise(lambda: Eng(), u['events'], sig)
+        if not ok and '|hang|' in sig:
+            # an event exceeded its CPU budget once and not again: a stall of the machine, not a property of the code
+            print(f'NOTE transient stall (event over its CPU budget, not reproducible): {sig} in run {u["desc"]}')
+            continue
         if not ok:
             print(f'HARNESS-NONDETERMINISM signature={sig} did not reproduce in-process (run {u["desc"]})')
             rc = max(rc, 2)
